@@ -84,7 +84,7 @@ QUIET_US = 21_000_000     # > 4 timeouts + 4 retry delays: a request left alone 
 class C20(F.PropCheck):
     pid = 'C20'; gen_groups = ['DnsConsts']; prop_file = 'Properties_C20'
     IN = {'RESOLVE': 0, 'CONNCB': 1, 'DISCCB': 2, 'RECONCB': 3, 'RECV': 4, 'SENTRES': 5, 'ADV': 6, 'DUMP': 7, 'CONNRES': 8}
-    OUT = {0: 'CB', 1: 'CONNECT', 2: 'DISCONNECT', 3: 'SENT', 4: 'SENTNULL', 5: 'STATE', 6: 'FAULT', 7: 'FUEL'}
+    OUT = {0: 'CB', 1: 'CONNECT', 2: 'DISCONNECT', 3: 'SENT', 4: 'SENTNULL', 5: 'STATE', 6: 'FAULT', 7: 'FUEL', 8: 'HANG'}
     quick_cases = 5000; thorough_cases = 200000
     trusted_extra = ['C20 driver harness/drv/c20.c + wrapper harness/wrap/c20_dns_wrap.c (real supla_esp_dns_client.c, accessors only); '
                      'replies and names are handed over in exact-size heap blocks so that ASan sees every access outside them',
@@ -96,7 +96,7 @@ class C20(F.PropCheck):
     rule = ('1-3 resolve requests per case (names 0..100 chars: regular host names, boundary lengths 3/4/62/63/64/65/100, dots anywhere, '
             'random bytes) x per-server outcome scripts {espconn_connect returns an error (-4/-1/-15/...), no connect, sent fails, disconnect, timeout, bad reply, CNAME-first, good reply '
             'with/without disconnect} x replies {valid A compressed/uncompressed, every single-field corruption, truncation at every '
-            'offset, random bytes 0..1500, 65535 bytes} x random timer advances, plus unstructured event soups; '
+            'offset, owner names of 200..600 bytes free of 0x00/>=0xC0 (boundaries 255/256/257) with/without terminator + A record, random bytes 0..1500, 65535 bytes} x random timer advances, plus unstructured event soups; '
             'non-trivial = at least one result callback observed; distinct by sha256 of the event text')
 
     def build_impl(self):
@@ -141,6 +141,19 @@ class C20(F.PropCheck):
                 return qname(labels)
             if k < 0.93: return qname([b'www', b'example']) [:-1] + b'\xc0\x0c'       # labels then pointer
             return b'\0'                                                                 # root
+        if want == 'longname':
+            # owner name longer than 255 bytes without 0 / pointer bytes in its first 255/256/257/300... bytes
+            clean = rng.choice([200, 254, 255, 256, 257, 258, 300, 320, 511, 512, 600])
+            style = rng.random()
+            if style < 0.5:       # 63-byte labels (a structurally regular, over-long name)
+                nf = b''
+                while len(nf) < clean: nf += bytes([63]) + bytes(rng.choice(b'abcdefghijklmnopqrstuvwxyz0123456789-') for _ in range(63))
+                nf = nf[:clean]
+            else:                 # printable run
+                nf = bytes(rng.randrange(1, 0xC0) for _ in range(clean))
+            end = rng.choice([b'\0', b'\xc0\x0c', b'', b''])
+            recs = [rr(nf + end, 1, 1, 60, ipb)] if (end and rng.random() < 0.8) else [nf + end + bytes(rng.randrange(1, 0xC0) for _ in range(rng.choice([0, 5, 14, 40])))]
+            return reply(name, recs), 'reply:longname%d%s' % (clean, '+end' if end else '')
         if want == 'good':
             extra = [rr(b'\xc0\x0c', 1, 1, 60, bytes(rng.getrandbits(8) for _ in range(4))) for _ in range(rng.choice([0, 0, 1, 3]))]
             tail = bytes(rng.getrandbits(8) for _ in range(rng.choice([0, 0, 0, 1, 11])))
@@ -190,7 +203,7 @@ class C20(F.PropCheck):
     def gen_try(self, rng, name, tags, connfailed=False):
         """events of one connection attempt, ending with enough time for the next attempt to start.
         connfailed: espconn_connect returned an error for this attempt -> (mostly) no callback ever comes for it"""
-        o = rng.choice(['noconn', 'sentfail', 'disc', 'timeout', 'bad', 'bad', 'random', 'cname', 'good', 'good', 'good-nodisc'])
+        o = rng.choice(['noconn', 'sentfail', 'disc', 'timeout', 'bad', 'bad', 'random', 'cname', 'good', 'good', 'good-nodisc', 'longname'])
         if connfailed and rng.random() < 0.8: o = 'connfail'
         tags.append('try:' + o); evs = []
         if o == 'connfail':
@@ -207,7 +220,7 @@ class C20(F.PropCheck):
             if rng.random() < 0.5: evs.append(('DISCCB', [], b''))
             evs.append(self.adv(rng, 200000))
         else:
-            want = {'bad': 'bad', 'random': 'random', 'cname': 'cname'}.get(o, 'good')
+            want = {'bad': 'bad', 'random': 'random', 'cname': 'cname', 'longname': 'longname'}.get(o, 'good')
             r, t = self.gen_reply(rng, name, want); tags.append(t)
             evs += [('CONNCB', [], b''), self.adv(rng, rng.choice([0, 20000, 150000])), ('RECV', [], r)]
             if o != 'good-nodisc' and rng.random() < 0.8: evs.append(('DISCCB', [], b''))
@@ -241,7 +254,7 @@ class C20(F.PropCheck):
             elif k < 0.3: evs.append(('CONNCB', [], b''))
             elif k < 0.42: evs.append(('DISCCB', [], b''))
             elif k < 0.45: evs.append(('RECONCB', [-11], b''))
-            elif k < 0.7: evs.append(('RECV', [], self.gen_reply(rng, name, rng.choice(['good', 'bad', 'random', 'cname']))[0]))
+            elif k < 0.7: evs.append(('RECV', [], self.gen_reply(rng, name, rng.choice(['good', 'bad', 'random', 'cname', 'longname']))[0]))
             elif k < 0.72: evs.append(('SENTRES', [rng.choice([0, 0, -1, -12])], b''))
             elif k < 0.75: evs.append(('CONNRES', [rng.choice([0, 0, -4, -1, -15])], b''))
             elif k < 0.95: evs.append(('ADV', [rng.choice([0, 1, 100000, 199999, 200000, 200001, 1000000, 4800000, 5000000, 5200000, 30000000, rng.randrange(0, 6000000)])], b''))
@@ -265,9 +278,13 @@ class C20(F.PropCheck):
         return cases
 
     # ---------------- comparison: a crash of the implementation must be a FAULT of the model and vice versa
+    HUNG = ('crash sig=24', 'crash sig=14', 'crash sig=9')     # SIGXCPU / SIGALRM / hard CPU limit: a callback did not return
     def compare(self, case, mo, io):
         (ms, ml), (is_, il) = mo, io
-        mfault = any(k == 'FAULT' for (k, _, _) in ml)
+        mfault = any(k == 'FAULT' for (k, _, _) in ml); mhang = any(k == 'HANG' for (k, _, _) in ml)
+        if is_ in self.HUNG:
+            return None if mhang else 'implementation did not return from a callback (%s) but the model terminates' % is_
+        if mhang: return 'model says the name-skip loop does not end, implementation returned'
         if is_ != 'ok':
             return None if mfault else 'implementation crashed (%s) but the model reports no access outside an object' % is_
         if mfault: return 'model reports an access outside an object, implementation ran on'
@@ -277,6 +294,8 @@ class C20(F.PropCheck):
 
     # ---------------- monitor (implementation trace vs. the property text, no model involved)
     def monitor(self, case, status, outs):
+        if status in self.HUNG:
+            return ['a resolver callback did not return within 1 s of CPU time (%s): the request can never complete' % status]
         if status != 'ok':
             return ['implementation crashed (%s): the resolver left the received buffer / an object (memory-safety clause)' % status]
         v = []
